@@ -89,6 +89,9 @@ void MessageAllocationMetadata::FieldAllocationMetadata::reserve(
   } else if (message_allocation_metadata) {
     auto* sub_message = reflection->MutableMessage(&message, descriptor);
     message_allocation_metadata->reserve(*sub_message);
+    // MutableMessage会标记has，预留完成后恢复为未设置状态
+    // 有has bit的子消息实例及其预留容量会继续保留
+    reflection->ClearField(&message, descriptor);
   }
 }
 
